@@ -12,7 +12,7 @@ The oracle differentiates numerically (Richardson-extrapolated central differenc
 
 The harness is a caller with memory.  A Jacobian / derivative is a function of the abscissa and the parameter
 vector only, so a case may say what the SAME model object (the same fit) was asked before the observed call:
-  base/tree : "before" = [[method, abscissas, parameters | null], ...] — `_raw_call` / `jacobian` / `derivative` on
+  base/tree : "before" = [[method, abscissas, parameters | null], ...] — the model function `model(x, params)` / `jacobian` / `derivative` on
               other abscissas (same or different number of points) with the same or other parameter values, run
               before the observed Jacobian and again before the observed derivative; "also" / "pos" = other
               abscissas evaluated in the same (vectorised) call, the observed one at index pos,
@@ -20,6 +20,19 @@ vector only, so a case may say what the SAME model object (the same fit) was ask
               parameter vector times `factor`) before the observed Jacobian (an optimiser asks for the residual
               first); fits contain inverted models (`invert()`, efjc_force, twlc_force) like any other.
 Model and oracle are stateless: any dependence of the answer on such a history is a disagreement.
+
+What the harness touches of the implementation (robustness against behaviour-preserving refactorings):
+  public    : model constructors, `model(x, {name: value})` (every model-function value: observed values, histories, the
+              values returned by inversions, the leaf functions of the oracle), `Model.jacobian / derivative /
+              parameter_names / independent`, `+`, `invert()`, `subtract_independent_offset()`, `FdFit`, `add_data`,
+              `fit.params`, `Fit.verify_jacobian`.  Parts of a composition are built on their own through the public
+              API and addressed by parameter NAME; the routing attributes of the compositions are not read.
+  anchored  : `Fit._calculate_jacobian` (the property's observation point) and `Fit._calculate_residual` (its "residual
+              vector") — observed while reachable under these names, else "?" (ignored by agree / oracle), the fit tie
+              then rests on its public twin `Fit.verify_jacobian`, which the oracle judges in every run;
+              `detail.model_implementation.calc_cubic_root / calc_cubic_root_derivatives` (raw cubics; no public twin
+              for arbitrary coefficients) — when unreachable the raw-cubic cases report a broken tie, the chain rule
+              stays tied through the public Jacobians / derivatives of the four cubic models.
 """
 import math
 
@@ -147,58 +160,70 @@ def leaf_names(kind, name):
     return [a if a == "kT" else f"{name}/{a}" for a in KINDS[kind][2]]
 
 
-def tokens(tree, obj):
-    """protocol tokens of a tree; names are read from the implementation's leaf objects (they are inputs of
-    the routing under test, not results of it)"""
+def offset_name(tree):
+    """name of the offset parameter of an ["off", t] node: the parameter the offset model has and the wrapped model
+    (built on its own through the public API) has not"""
+    inner = set(obj_of(tree[1]).parameter_names)
+    extra = [n for n in obj_of(tree).parameter_names if n not in inner]
+    if len(extra) != 1:
+        raise ValueError(f"offset model adds {extra} to the parameters of the wrapped model")
+    return extra[0]
+
+
+def tokens(tree):
+    """protocol tokens of a tree; names are read from the public `parameter_names` of the implementation's model of
+    each part, built on its own through the public API (they are inputs of the routing under test, not results of it;
+    the routing attributes lhs / rhs / model / *_params of the compositions are not consulted)"""
     t = tree[0]
     if t == "base":
-        names = list(obj.parameter_names)
+        names = list(obj_of(tree).parameter_names)
         return ["base", MODEL_KIND.get(tree[1], tree[1]), str(len(names))] + names
     if t == "add":
-        return ["add"] + tokens(tree[1], obj.lhs) + tokens(tree[2], obj.rhs)
+        return ["add"] + tokens(tree[1]) + tokens(tree[2])
     if t == "off":
-        return ["off", obj.parameter_names[obj.offset_parameter]] + tokens(tree[1], obj.model)
+        return ["off", offset_name(tree)] + tokens(tree[1])
     if t == "inv":
-        return ["inv"] + tokens(tree[1], obj.model)
-    if t == "efjc_f":
-        names = list(obj.model.parameter_names)
-        return ["inv", "base", "efjc_d", str(len(names))] + names
-    if t == "twlc_f":
-        names = list(obj.parameter_names)
-        return ["inv", "base", "twlc_d", str(len(names))] + names
+        return ["inv"] + tokens(tree[1])
+    if t in ("efjc_f", "twlc_f"):
+        names = list(obj_of(tree).parameter_names)
+        return ["inv", "base", "efjc_d" if t == "efjc_f" else "twlc_d", str(len(names))] + names
     raise ValueError(t)
 
 
-def collect_sols(tree, obj, x, p):
-    """values the numerical inversions return for the inv nodes, pre-order (inputs of the model's inversion rule)"""
+def call_model(obj, xs, pd):
+    """the model function of a Model object through its public entry point `model(independent, {name: value})`"""
+    return obj(np.asarray(xs, dtype=float), pd)
+
+
+def collect_sols(tree, x, pd):
+    """values the numerical inversions return for the inv nodes, pre-order (inputs of the model's inversion rule).
+    Parameters are looked up BY NAME (`pd`); every inverted part is the implementation's model of that part, built
+    through the public API and evaluated through the public `model(x, params)`"""
     t = tree[0]
     if t == "base":
         return []
     if t == "add":
-        return collect_sols(tree[1], obj.lhs, x, [p[i] for i in obj.lhs_params]) + collect_sols(
-            tree[2], obj.rhs, x, [p[i] for i in obj.rhs_params]
-        )
+        return collect_sols(tree[1], x, pd) + collect_sols(tree[2], x, pd)
     if t == "off":
-        return collect_sols(tree[1], obj.model, x - p[obj.offset_parameter], [p[i] for i in obj.model_params])
+        return collect_sols(tree[1], x - pd[offset_name(tree)], pd)
     if t == "inv":
-        F = float(np.asarray(obj._raw_call(np.array([x], dtype=float), np.asarray(p, dtype=float))).ravel()[0])
-        return [F] + collect_sols(tree[1], obj.model, F, p)
+        F = float(np.asarray(call_model(obj_of(tree), [x], pd)).ravel()[0])
+        return [F] + collect_sols(tree[1], F, pd)
     if t in ("efjc_f", "twlc_f"):
-        F = float(np.asarray(obj._raw_call(np.array([x], dtype=float), np.asarray(p, dtype=float))).ravel()[0])
-        return [F]
+        return [float(np.asarray(call_model(obj_of(tree), [x], pd)).ravel()[0])]
     raise ValueError(t)
 
 
 _SOLS = {}
 
 
-def sols_of(case, obj):
+def sols_of(case):
     key = json_key(case)
     if key not in _SOLS:
         if len(_SOLS) > 5000:
             _SOLS.clear()
         try:
-            _SOLS[key] = collect_sols(case["tree"], obj, float(case["x"]), pvec(case, list(obj.parameter_names)))
+            _SOLS[key] = collect_sols(case["tree"], float(case["x"]), {n: float(v) for n, v in case["params"].items()})
         except Exception:
             _SOLS[key] = [float("nan")] * count_inv(case["tree"])
     return _SOLS[key]
@@ -249,10 +274,20 @@ def has_jacobian(tree):
 # ------------------------------------------------------------------ plain-Python specification of a composition
 
 
-def leaf_fn(kind):
-    from lumicks.pylake.fitting.detail import model_implementation as mi
+_LEAF = {}
 
-    return getattr(mi, {"offset_f": "force_offset_model", "offset_d": "distance_offset_model"}.get(kind, KINDS[kind][0]))
+
+def leaf_fn(kind):
+    """model function `fn(x_array, *args)` of a built-in leaf for the oracle's plain-Python evaluation: the public model
+    object of that kind (`pylake.<constructor>("leaf")`) evaluated through its public `model(x, {name: value})`, the
+    parameters in argument order"""
+    if kind not in _LEAF:
+        obj = getattr(_pl(), KINDS[kind][0])("leaf")
+        names = list(obj.parameter_names)
+        if len(names) != len(KINDS[kind][2]):
+            raise ValueError(f"{kind}: the model has the parameters {names}")
+        _LEAF[kind] = lambda x, *args, obj=obj, names=names: obj(x, dict(zip(names, args)))
+    return _LEAF[kind]
 
 
 def tree_name(tree):
@@ -518,7 +553,7 @@ def run_steps(obj, steps, p_same, names=None):
             pv = p_same if pd is None else ([float(pd[n]) for n in names] if isinstance(pd, dict) else [float(v) for v in pd])
             xa = np.array([float(v) for v in xs], dtype=float)
             if meth == "call":
-                obj._raw_call(xa, np.asarray(pv, dtype=float))
+                call_model(obj, xa, dict(zip(obj.parameter_names, pv)))
             elif meth == "jac":
                 obj.jacobian(xa, pv)
             elif meth == "der":
@@ -527,16 +562,60 @@ def run_steps(obj, steps, p_same, names=None):
             pass
 
 
+def priv(obj, name):
+    """a private member of the implementation that the harness observes, or None when it is not there under that
+    name any more (renamed / inlined by a refactoring): the observation is then "?" — never an implementation answer"""
+    return getattr(obj, name, None)
+
+
+UNREACHABLE = {}  # private member -> number of observations that could not be made (evidence)
+
+
+def fit_fns(fit):
+    """(Jacobian, residual vector) of a fit as functions of the parameter vector: `Fit._calculate_jacobian` (the
+    property's observation point) and `Fit._calculate_residual` (the property's 'residual vector'; no public accessor
+    returns the vector itself), each None when unreachable"""
+    out = []
+    for name in ("_calculate_jacobian", "_calculate_residual"):
+        fn = priv(fit, name)
+        if fn is None:
+            UNREACHABLE[name] = UNREACHABLE.get(name, 0) + 1
+        out.append(fn)
+    return out
+
+
 def run_fit_steps(fit, steps, vec):
+    jac_fn, res_fn = priv(fit, "_calculate_jacobian"), priv(fit, "_calculate_residual")
     for meth, factor in steps or []:
         try:
             v = np.array(vec, dtype=float) * float(factor)
-            if meth == "res":
-                fit._calculate_residual(v)
+            if meth == "res":  # (public entries that evaluate the same thing when the private one is gone)
+                res_fn(v) if res_fn else fit.log_likelihood(v, sigma=np.ones(1))
             elif meth == "jac":
-                fit._calculate_jacobian(v)
+                jac_fn(v) if jac_fn else fit.verify_jacobian(v, verbose=False)
         except Exception:
             pass
+
+
+# the public twin of the fit tie: `Fit.verify_jacobian(params, dx=, rtol=, atol=)` compares the fit's analytic Jacobian
+# with central differences (absolute step dx for every parameter) of its residual vector and returns one bool
+VERIFY_DX = 3.0e-5
+VERIFY_RTOL = 1.0e-3
+VERIFY_ATOL = 3.0e-5  # x largest |ordinate| of the data: rounding noise of the cubic models' values / dx
+
+
+def public_verify(fit, case, vec):
+    """ "1" / "0" = what the public Fit.verify_jacobian says at the case's parameter vector; "?" = not asked (no
+    parameter; a model with a numerical inversion — every residual evaluation solves an inversion per point, whose
+    tolerance 1e-8 divided by dx is far above any useful threshold) or it raised"""
+    if not len(vec) or fit_has_inv(case):
+        return "?"
+    scale = max([abs(float(y)) for m in case["models"] for d in m["data"] for y in d["ys"]] + [0.0])
+    try:
+        return "1" if fit.verify_jacobian(np.array(vec, dtype=float), plot=0, verbose=False, dx=VERIFY_DX, rtol=VERIFY_RTOL,
+                                          atol=VERIFY_ATOL * scale) else "0"
+    except Exception:
+        return "?"
 
 
 def impl(case):
@@ -549,7 +628,7 @@ def impl(case):
             p = [float(v) for v in case["p"]]
             out = []
             try:
-                out.append(fl(at(obj._raw_call(x, np.asarray(p)), pos)))
+                out.append(fl(at(call_model(obj, x, dict(zip(obj.parameter_names, p))), pos)))
             except Exception as e:
                 out.append(errname(e))
             run_steps(obj, case.get("before"), p)
@@ -565,18 +644,25 @@ def impl(case):
                 out.append(errname(e))
             return out
         if k == "cubic":
-            from lumicks.pylake.fitting.detail import model_implementation as mi
+            # anchored mechanism without a public twin for arbitrary (a, b, c): tied directly while it is reachable under
+            # its name; the same chain rule stays tied through the public Jacobians / derivatives of the four cubic
+            # models (base, tree and fit cases), which do not need it by name
+            try:
+                from lumicks.pylake.fitting.detail import model_implementation as mi
 
+                root_fn, droot_fn = mi.calc_cubic_root, mi.calc_cubic_root_derivatives
+            except (ImportError, AttributeError) as e:
+                return [f"Error:TieBroken:anchored calc_cubic_root / calc_cubic_root_derivatives not reachable ({type(e).__name__}: {str(e)[:80]})"]
             a, b, c = (np.array([float(case[n])]) for n in "abc")
-            y = mi.calc_cubic_root(a, b, c, case["k"])
-            d = mi.calc_cubic_root_derivatives(a, b, c, case["k"])
+            y = root_fn(a, b, c, case["k"])
+            d = droot_fn(a, b, c, case["k"])
             return [fl_list([y[0], d[0][0], d[1][0], d[2][0]])]
         if k == "tree":
             obj = obj_of(case["tree"])
             names = list(obj.parameter_names)
             p = pvec(case, names)
             x, pos = xvec(case)
-            out = [" ".join(names) + " | " + fl_list(sols_of(case, obj))]
+            out = [" ".join(names) + " | " + fl_list(sols_of(case))]
             run_steps(obj, case.get("before"), p, names)
             try:
                 j = obj.jacobian(x, p)
@@ -595,18 +681,24 @@ def impl(case):
             names = [str(n) for n in fit.params.keys()]
             vec = np.array([float(case["values"][n]) for n in names], dtype=float)
             run_fit_steps(fit, case.get("pre"), vec)
-            J = np.asarray(fit._calculate_jacobian(np.array(vec)))
-            a0 = " ".join(names) + " | " + "[" + ";".join(",".join(fl(v) for v in row) for row in J) + "]"
-            Jn, En = numeric_fit_jacobian(fit, vec)
-            if fit_has_inv(case):
-                # every residual evaluation solves an inversion per point: the oracle (which judges the very same
-                # numerical differentiation of the residual vector) takes this table instead of repeating it
-                if len(_NUMJ) > 50:
-                    _NUMJ.clear()
-                _NUMJ[fit_key(case)] = (np.array(Jn), np.array(En))
-            Jn = np.where(En > 1.0e-7 * np.maximum(np.abs(Jn), 1e-300), np.nan, Jn)  # not converged (kink, noise)
-            a1 = " ".join(names) + " | " + "[" + ";".join(",".join(fl(v) for v in row) for row in Jn) + "]"
-            return [a0, a1]
+            jac_fn, res_fn = fit_fns(fit)
+            head = " ".join(names) + " | "
+            a0 = a1 = head + "?"
+            if jac_fn is not None:
+                J = np.asarray(jac_fn(np.array(vec)))
+                a0 = head + "[" + ";".join(",".join(fl(v) for v in row) for row in J) + "]"
+            if res_fn is not None:
+                Jn, En = numeric_fit_jacobian(res_fn, vec)
+                if fit_has_inv(case):
+                    # every residual evaluation solves an inversion per point: the oracle (which judges the very same
+                    # numerical differentiation of the residual vector) takes this table instead of repeating it
+                    if len(_NUMJ) > 50:
+                        _NUMJ.clear()
+                    _NUMJ[fit_key(case)] = (np.array(Jn), np.array(En))
+                Jn = np.where(En > 1.0e-7 * np.maximum(np.abs(Jn), 1e-300), np.nan, Jn)  # not converged (kink, noise)
+                a1 = head + "[" + ";".join(",".join(fl(v) for v in row) for row in Jn) + "]"
+            # the same tie through the public API (judged by the oracle, see oracle_fit)
+            return [a0, a1 + " | V" + public_verify(fit, case, vec)]
     except Exception as e:
         return [errname(e)] * len(ops(case))
     raise ValueError(k)
@@ -633,16 +725,17 @@ def build_fit(case):
     return fit, models
 
 
-def numeric_fit_jacobian(fit, vec):
+def numeric_fit_jacobian(res_fn, vec):
+    """Richardson-extrapolated central differences of the residual vector `res_fn` (of a fit) at vec"""
     n = len(vec)
-    r0 = np.asarray(fit._calculate_residual(np.array(vec)))
+    r0 = np.asarray(res_fn(np.array(vec)))
     J = np.zeros((len(r0), n))
     E = np.zeros((len(r0), n))
     for i in range(n):
         def fn(t, i=i):
             v = np.array(vec)
             v[i] = t
-            return np.asarray(fit._calculate_residual(v))
+            return np.asarray(res_fn(v))
 
         J[:, i], E[:, i] = richardson_vec(fn, vec[i], step_for(vec[i], 1e-2))
     return J, E
@@ -705,7 +798,7 @@ def fit_sols(case):
                         loc = None
                     for x in d["xs"]:
                         try:
-                            got = collect_sols(m["tree"], obj, float(x), [loc[n] for n in names])
+                            got = collect_sols(m["tree"], float(x), loc)
                         except Exception:
                             got = [float("nan")] * n_inv
                         drows.append(got)
@@ -753,10 +846,9 @@ def ops(case):
     if k == "cubic":
         return [f"c13.cubic {fl(case['a'])} {fl(case['b'])} {fl(case['c'])} {case['k']}"]
     if k == "tree":
-        obj = obj_of(case["tree"])
-        sols = sols_of(case, obj)
+        sols = sols_of(case)
         head = [fl(case["x"]), fl_list(sols)] + assoc_tokens(case["params"])
-        tail = tokens(case["tree"], obj)
+        tail = tokens(case["tree"])
         out = [" ".join(["c13.tree", w] + head + tail) for w in ("names", "jac")]
         if has_derivative(case["tree"]):
             out.append(" ".join(["c13.tree", "der"] + head + tail))
@@ -766,7 +858,7 @@ def ops(case):
         sols = fit_sols(case)[0] if fit_has_inv(case) else None
         for mi_, m in enumerate(case["models"]):
             obj = obj_of(m["tree"])
-            toks += tokens(m["tree"], obj) + [str(len(m["data"]))]
+            toks += tokens(m["tree"]) + [str(len(m["data"]))]
             names = list(obj.parameter_names)
             for di, d in enumerate(m["data"]):
                 tr = dict(d["trans"])
@@ -802,6 +894,18 @@ def close(a, b, rel, floor=0.0):
     if math.isinf(a) or math.isinf(b):
         return a == b
     return abs(a - b) <= rel * max(abs(a), abs(b), floor)
+
+
+def close_out_of_domain(a, b, rel, floor=0.0):
+    """comparison of one entry in the out-of-domain stream (non-finite / zero / negative abscissas and parameters, which
+    the property does not quantify over).  Finite entries as `close`; a finite entry never matches a non-finite one; two
+    infinities must have the same sign.  NaN is what IEEE arithmetic returns for an indeterminate form (inf/inf,
+    inf - inf, 0 inf): whether an expression that is infinite there runs into one depends on how the algebraically same
+    expression is associated — infinitely ill-conditioned, no digit of it is determined, the model executes ONE
+    association — so a NaN on one side is matched by NaN or either infinity on the other."""
+    if math.isnan(a) or math.isnan(b):
+        return not (math.isfinite(a) or math.isfinite(b))
+    return close(a, b, rel, floor)
 
 
 def rows_close(a, b, p, rel, sens_rel=1.0e-9):
@@ -844,7 +948,7 @@ def agree(case, i, ia, ma):
                 if len(a) != len(b):
                     return False
                 big = max([abs(v) for v in a + b if math.isfinite(v)] + [0.0])
-                return all(close(u, v, 1e-6, 1e-3 * big + 1e-6) for u, v in zip(a, b))
+                return all(close_out_of_domain(u, v, 1e-6, 1e-3 * big + 1e-6) for u, v in zip(a, b))
             head, body = ma.split(" ", 1)
             if ":" in head:  # cubic model: rounding of the coefficients is amplified by the cancellation inside det
                 amp = dec(head.split(":")[1])
@@ -879,11 +983,13 @@ def agree(case, i, ia, ma):
         if k == "fit":
             if " | " not in ia or " | " not in ma:
                 return ia == ma
-            na, ja = ia.split(" | ")
+            na, ja = ia.split(" | ")[:2]  # (the oracle's part of answer 1 — the public verify flag — follows)
             parts = ma.split(" | ")
             nb, jb = parts[0], parts[1]
             if na != nb:
                 return False
+            if ja.strip() == "?":
+                return True  # the private observation point is not reachable under its name: nothing was observed
             if not na.strip():
                 return ja.strip() == jb.strip()  # no named parameter: an empty Jacobian on both sides
             if i == 0 and len(parts) == 3 and parts[1] != parts[2]:
@@ -1119,27 +1225,65 @@ def dup_columns(case, names):
     return bad
 
 
+def fit_near_kink(case, rel=1.0e-3):
+    """some data point of the fit is within `rel` of f == Fc of a twistable leaf at that data set's parameter values"""
+    for m in case["models"]:
+        for d in m["data"]:
+            try:
+                local = local_params(case, m, d)
+            except Exception:
+                return True
+            if any(near_kink(m["tree"], x, local, rel) for x in d["xs"]):
+                return True
+    return False
+
+
+def verify_clause(case, flag, alone):
+    """the public twin of the fit tie.  `alone` = the private observation points are not reachable, so the harness's own
+    numerical differentiation could not say where the residual is differentiable: samples on / next to the regime
+    boundary of a twistable leaf are then left out (plain central differences straddle the kink)"""
+    if flag != "0":
+        return None
+    if alone and fit_near_kink(case):
+        case.setdefault("_skipped", []).append("fit-verify-near-kink")
+        return None
+    return (f"fit-verify-jacobian: the public Fit.verify_jacobian(dx={VERIFY_DX:g}, rtol={VERIFY_RTOL:g}, atol={VERIFY_ATOL:g} x largest "
+            "ordinate) rejects the fit's analytic Jacobian against central differences of its residual vector")
+
+
 def oracle_fit(case, ia):
     if " | " not in ia[0]:
         return f"fit-jacobian-available: {ia[0][:60]}"
     names = [n for n in ia[0].split(" | ")[0].split(" ") if n]
     if not names:
         return None  # every parameter pinned to a constant: the Jacobian has no column to judge
-    A = parse_rows(ia[0].split(" | ")[1])
+    flag = ia[1].split(" | V")[-1].strip() if " | V" in ia[1] else "?"
+    skipped = case.setdefault("_skipped", [])
     vec = np.array([float(case["values"][n]) for n in names], dtype=float)
-    if fit_key(case) in _NUMJ:
-        Jn, En = _NUMJ.pop(fit_key(case))
-    else:
-        fit, _ = build_fit(case)
-        Jn, En = numeric_fit_jacobian(fit, vec)
+    body = ia[0].split(" | ")[1].strip()
+    numj = None
+    if body != "?":
+        if fit_key(case) in _NUMJ:
+            numj = _NUMJ.pop(fit_key(case))
+        else:
+            res_fn = priv(build_fit(case)[0], "_calculate_residual")
+            if res_fn is not None:
+                numj = numeric_fit_jacobian(res_fn, vec)
+    if numj is None:
+        # Fit._calculate_jacobian / Fit._calculate_residual are not reachable under these names: what is left of the
+        # fit tie is its public twin
+        skipped.append("fit-private-unreachable")
+        return verify_clause(case, flag, alone=True)
+    A = parse_rows(body)
+    Jn, En = numj
     if len(A) != Jn.shape[0] or any(len(r) != Jn.shape[1] for r in A):
         return f"fit-jacobian-shape: {len(A)} rows, numerical {Jn.shape}"
-    skipped = case.setdefault("_skipped", [])
     inv_rel = fit_inv_rel(case)
     if inv_rel is not None and not math.isfinite(inv_rel):
         skipped.append("inversion-error>1e-2")
         return None
     wrong = []
+    abstained = 0
     for r in range(Jn.shape[0]):
         sens = max([abs(g * v) for g, v in zip(vec, A[r]) if math.isfinite(v)] + [0.0])
         for c in range(Jn.shape[1]):
@@ -1148,10 +1292,12 @@ def oracle_fit(case, ia):
             v = judge(A[r][c], float(Jn[r, c]), float(En[r, c]), (1e-3 if inv_rel is None else 1.0) * sens / max(abs(vec[c]), 1e-2) + 1e-300, rel=inv_rel)
             if v == "skip":
                 skipped.append("fit-entry")
+                abstained += 1
             elif v:
                 wrong.append((r, c, v))
     if not wrong:
-        return None
+        # every entry agrees with the converged numerical derivative: the public check (far coarser) must accept too
+        return verify_clause(case, flag, alone=False) if not abstained else None
     dups = dup_columns(case, names)
     cls = "fit-jacobian-dup" if all((r, c) in dups for r, c, _ in wrong) else "fit-jacobian"
     r, c, v = wrong[0]
@@ -2269,8 +2415,12 @@ def extra_coverage(results):
             "... with two data sets of one condition and equally many points (evaluated back to back at the same parameter values)": 0,
             "fits asked for the residual / Jacobian before the observed Jacobian": 0}
     pk = list(past)
+    pub = {"1": 0, "0": 0, "?": 0}
     for r in results:
         c = r["case"]
+        if c["op"] == "fit" and len(r["impl"]) > 1 and " | V" in r["impl"][1]:
+            flag = r["impl"][1].split(" | V")[-1].strip()
+            pub[flag if flag in pub else "?"] += 1
         try:
             if c["op"] in ("base", "tree"):
                 n_obs = 1 + len(c.get("also", []))
@@ -2361,6 +2511,10 @@ def extra_coverage(results):
         "cubic_branch_legend": "C = Cardano chain rule (det > 0), T = trigonometric (det <= 0); R = inside the regularised band, N = outside; '-' = closed form",
         "oracle_derivative_entries": {"compared_or_abstained": JUDGED[0], "abstained_not_converged": JUDGED[1]},
         "oracle_abstentions": skipped,
+        "public_fit_twin": {"Fit.verify_jacobian accepts": pub["1"], "rejects": pub["0"],
+                            "not asked (no parameter / numerical inversion / raised)": pub["?"],
+                            "call": f"verify_jacobian(params, verbose=False, dx={VERIFY_DX:g}, rtol={VERIFY_RTOL:g}, atol={VERIFY_ATOL:g} x largest ordinate)"},
+        "private_observation_points_unreachable": dict(UNREACHABLE),
         "oracle_abstention_note": "the numerical derivative is used only when its Richardson table converges (error estimate < 1e-7 of the value) and the left and right difference quotients agree; entries where it does not (kink of the twistable model, regularised band, non-finite values) are dropped from the oracle, not from the model comparison",
         "tree_shapes": tree_shapes,
         "samples_exactly_on_twlc_regime_boundary": boundary,
@@ -2418,6 +2572,15 @@ TRUSTED = [
     "RealLike formulas are executed at Float and proved at R; rounding is not modelled (comparison: rel 1e-9 for closed "
     "forms and the trigonometric branch, rel 2e-6 where the Cardano chain rule is involved, 1e-7 through numerical inversions)",
     "np.abs(t)**(2/3) of calc_first_root is modelled as cbrt(|t|)^2; x**(-2) as 1/(x*x); x**3 as x*x*x",
+    "the model executes ONE association of each floating-point formula (the one the code had when it was transcribed); "
+    "an algebraically identical reformulation re-rolls the rounding: inside the validity range the comparison allows "
+    "that on the scale of the formula's own conditioning (1e-9; Cardano chain rule max(2e-6, 1e-12 x the amplification "
+    "of det and of the cube-root arguments, reported by the model)); out of domain (non-finite / zero / negative inputs) "
+    "a NaN — IEEE's answer to an indeterminate form inf/inf, inf-inf, 0 inf, which only some associations run into — is "
+    "matched by NaN or an infinity of either sign, two infinities need the same sign, finite entries stay compared",
+    "fit tie through the public API: Fit.verify_jacobian(dx=3e-5, rtol=1e-3, atol=3e-5 x largest ordinate) must accept "
+    "wherever every entry agrees with the converged numerical derivative; it is all that is left of the fit tie if "
+    "Fit._calculate_jacobian / _calculate_residual are renamed (then not judged within 1e-3 of a tWLC regime boundary)",
     "the numerical inversions (scipy least_squares) are not modelled: the value F they return is an input of the model's "
     "inversion rule",
     "oracle: Richardson-extrapolated central differences in double precision, accepted only when converged AND the "
